@@ -873,6 +873,13 @@ func (e *c20Eval) pristineOf(build string, p TaskProg) pristine {
 
 // judge applies the oracles to the result of one scenario; races are the race reports attributed to it.
 func (e *c20Eval) judge(sc C20Scenario, res ScenarioResult, races []string) (vs []Violation, inconclusive bool) {
+	if os.Getenv("VERIF_DEBUG") != "" {
+		for pi, ph := range res.Phases {
+			for i, ti := range sc.Phases[pi] {
+				fmt.Fprintf(os.Stderr, "debug: phase %d task %d (%s): got %v pristine %v\n", pi, ti, sc.Tasks[ti].Name, ph.Records[i], e.pristineOf(sc.Build, sc.Tasks[ti]).rec)
+			}
+		}
+	}
 	withDecisions := sc
 	withDecisions.Decisions = nil
 	for _, ph := range res.Phases {
@@ -928,9 +935,9 @@ func (e *c20Eval) judge(sc C20Scenario, res ScenarioResult, races []string) (vs 
 				if a != b {
 					step := strings.SplitN(a+":", ":", 3)
 					vs = append(vs, Violation{Property: "C20", Class: "result-differs",
-						Signature: fmt.Sprintf("C20 result-differs %s %s:%s", kind, step[0], step[1]),
-						Detail: fmt.Sprintf("phase %d (%s, tasks %v): step %d of task %q returned %q, alone in a fresh process it returns %q",
-							pi, kind, sc.Phases[pi], k, sc.Tasks[ti].Name, b, a),
+						Signature: fmt.Sprintf("C20 result-differs %s %s:%s%s", kind, step[0], step[1], mode),
+						Detail: fmt.Sprintf("phase %d (%s%s, tasks %v): step %d of task %q returned %q, alone in a fresh process it returns %q",
+							pi, kind, mode, sc.Phases[pi], k, sc.Tasks[ti].Name, b, a),
 						Scenario: scJSON})
 					break
 				}
